@@ -9,5 +9,4 @@ def run(tier, only=None):
 
 
 def replay(path):
-    from vlib import replay as R
-    return R.replay_kani(PROP, path)
+    return T.replay(path, prop=PROP)
